@@ -192,12 +192,18 @@ class CollectWriter:
     def __init__(self, transport=None, block_after=None):
         self.transport = transport or FakeTransport()
         self.chunks = []
+        self.times = []
         self.closed = False
+        self.closed_at = None
         self.close_calls = 0
         self.block_after = block_after  # number of writes after which drain() never returns
 
     def write(self, data):
         self.chunks.append(bytes(data))
+        try:
+            self.times.append(asyncio.get_running_loop().time())
+        except RuntimeError:
+            self.times.append(None)
 
     async def drain(self):
         if self.block_after is not None and len(self.chunks) > self.block_after:
@@ -205,6 +211,11 @@ class CollectWriter:
         await asyncio.sleep(0)
 
     def close(self):
+        if not self.closed:
+            try:
+                self.closed_at = asyncio.get_running_loop().time()
+            except RuntimeError:
+                pass
         self.closed = True
         self.close_calls += 1
 
